@@ -76,29 +76,62 @@ func shStatOf(t term.T) shStat {
 	return shStat{term.Float(a[0]), term.Float(a[1]), term.Float(a[2]), term.Float(a[3]), term.Float(a[4])}
 }
 
+// runShield drives the REAL shield.Manager.  The input is (unit pool, key pool, slots, ops): `slots` holds, per
+// event kind of the manager (ShieldAdded, ShieldRemoved, ShieldChange), a queue of scripts; the listener
+// subscribed to that event pops the next script and executes its operations ON THE SAME MANAGER while the call
+// that emitted the event is still running (re-entrancy).  The recorded trace, in time order:
+//
+//	TCall o        a call (top-level or nested) is entered
+//	TEv e probe    a listener is invoked with event e; probe = IsShielded / MaxShield / HasShield of every unit
+//	               and key as the listener sees them, before it does anything
+//	TRet r probe   the call returns (r = Some of AbsorbDamage's return value), probe right after the return
 func runShield(in term.T) term.T {
 	it := term.TupleItems(in)
 	nu, nk := int(term.Int(it[0])), int(term.Int(it[1]))
+	_, qs := term.Ctor(it[2]) // mkQ added removed change
+	qAdded, qRemoved, qChange := term.List(qs[0]), term.List(qs[1]), term.List(qs[2])
 	events := &event.System{}
 	attr := &shAttr{st: map[key.TargetID]shStat{}}
 	mgr := shield.New(events, attr)
 
-	var evs []term.T
+	trace := []term.T{}
+	probe := func() term.T {
+		pr := []term.T{}
+		for u := 0; u < nu; u++ {
+			has := []term.T{}
+			for k := 0; k < nk; k++ {
+				has = append(has, term.B(mgr.HasShield(key.TargetID(u), shKey(int64(k)))))
+			}
+			pr = append(pr, term.Tup(term.B(mgr.IsShielded(key.TargetID(u))), term.F(mgr.MaxShield(key.TargetID(u))), term.L(has...)))
+		}
+		return term.L(pr...)
+	}
+	var doOp func(o term.T)
+	react := func(q *[]term.T, ev term.T) {
+		trace = append(trace, term.C("TEv", ev, probe()))
+		if len(*q) == 0 {
+			return // exhausted queue: a listener that does nothing
+		}
+		script := term.List((*q)[0])
+		*q = (*q)[1:]
+		for _, o := range script {
+			doOp(o)
+		}
+	}
 	events.ShieldAdded.Subscribe(func(e event.ShieldAdded) {
-		evs = append(evs, term.C("EAdded", term.I(shKeyNum(e.ID)),
+		react(&qAdded, term.C("EAdded", term.I(shKeyNum(e.ID)),
 			term.I(int64(e.Info.Source)), term.I(int64(e.Info.Target)), term.F(e.Info.ShieldValue), term.F(e.ShieldHealth)))
 	})
 	events.ShieldRemoved.Subscribe(func(e event.ShieldRemoved) {
-		evs = append(evs, term.C("ERemoved", term.I(shKeyNum(e.ID)), term.I(int64(e.Target))))
+		react(&qRemoved, term.C("ERemoved", term.I(shKeyNum(e.ID)), term.I(int64(e.Target))))
 	})
 	events.ShieldChange.Subscribe(func(e event.ShieldChange) {
-		evs = append(evs, term.C("EChange", term.I(int64(e.Target)), shKeyBack(e.ID),
+		react(&qChange, term.C("EChange", term.I(int64(e.Target)), shKeyBack(e.ID),
 			term.F(e.NewHP), term.F(e.OldHP), term.F(e.DamageIn), term.F(e.DamageOut)))
 	})
 
-	out := []term.T{}
-	for _, o := range term.List(it[2]) {
-		evs = nil
+	doOp = func(o term.T) {
+		trace = append(trace, term.C("TCall", o))
 		ret := term.None()
 		name, a := term.Ctor(o)
 		switch name {
@@ -131,22 +164,20 @@ func runShield(in term.T) term.T {
 		default:
 			panic("unknown op " + name)
 		}
-		probe := []term.T{}
-		for u := 0; u < nu; u++ {
-			has := []term.T{}
-			for k := 0; k < nk; k++ {
-				has = append(has, term.B(mgr.HasShield(key.TargetID(u), shKey(int64(k)))))
-			}
-			probe = append(probe, term.Tup(term.B(mgr.IsShielded(key.TargetID(u))), term.F(mgr.MaxShield(key.TargetID(u))), term.L(has...)))
-		}
-		out = append(out, term.C("mkObs", term.L(evs...), ret, term.L(probe...)))
+		trace = append(trace, term.C("TRet", ret, probe()))
 	}
-	return term.C("Ok", term.L(out...))
+	for _, o := range term.List(it[3]) {
+		doOp(o)
+	}
+	return term.C("Ok", term.L(trace...))
 }
 
 // ---- generator ----
-// A shadow of the documented behaviour is kept only to aim damage amounts at the boundaries
-// (exactly a shield's strength, one ulp below/above); nothing is compared against it.
+// A shadow of the documented behaviour (flat: every call atomic, its listeners' calls after it) is kept only to
+// aim: damage amounts at the boundaries (exactly a shield's strength, one ulp below/above), listener scripts at
+// the unit / key the outer call is working on.  It also decides in which order events occur, so that the script
+// generated for an event is the one its listener will pop.  Nothing is compared against it; if the real manager
+// emits other events, the scripts are simply popped by other deliveries.
 
 type shShadow struct {
 	k  int64
@@ -160,168 +191,442 @@ func shDim(x, y float64) float64 {
 	return 0
 }
 
-func genShield(r *term.Rng, idx int) term.T {
-	nu, nk := 3, 4
-	statPool := []float64{0, 50, 80, 100, 100, 1000, 1234.5, 3.25}
-	bonusPool := []float64{0, 0, 0.2, 0.5, 1, -0.25, 0.1}
-	coefPool := []float64{0.5, 1, 0.1, 0.25, 2, 0, 0.57, -0.5}
-	flatPool := []float64{0, 0, 20, 150, 320, 0.1, -10}
-	kindsAll := []string{"FAtk", "FDef", "FHp", "FTgtHp", "FTotalShield", "FInvalid"}
+type shEv struct {
+	kind     string // "added", "removed", "change"
+	k        int64  // key (for change: the strongest remaining shield, -1 if none)
+	src, tgt int
+	later    int // removals the same call has still to announce after this event
+}
 
-	stats := make([]shStat, nu)
-	shadow := make([][]shShadow, nu)
-	ops := []term.T{}
-	statTerm := func(s shStat) term.T {
-		return term.C("mkSt", term.F(s.atk), term.F(s.def), term.F(s.hp), term.F(s.boost), term.F(s.taken))
+type shGen struct {
+	r        *term.Rng
+	nu, nk   int
+	stats    []shStat
+	shadow   [][]shShadow
+	qs       map[string][]term.T
+	budget   int // nested operations left for this case
+	maxDepth int
+	listen   bool
+	twins    bool // most shields have one and the same strength: a hit breaks several at once, on every unit
+}
+
+var (
+	shStatPool  = []float64{0, 50, 80, 100, 100, 1000, 1234.5, 3.25}
+	shBonusPool = []float64{0, 0, 0.2, 0.5, 1, -0.25, 0.1}
+	shCoefPool  = []float64{0.5, 1, 0.1, 0.25, 2, 0, 0.57, -0.5}
+	shFlatPool  = []float64{0, 0, 20, 150, 320, 0.1, -10}
+	shKindsAll  = []string{"FAtk", "FDef", "FHp", "FTgtHp", "FTotalShield", "FInvalid"}
+)
+
+func (g *shGen) maxOf(u int) float64 {
+	m := 0.0
+	for _, s := range g.shadow[u] {
+		if s.hp > m {
+			m = s.hp
+		}
 	}
+	return m
+}
+
+func shStatTerm(s shStat) term.T {
+	return term.C("mkSt", term.F(s.atk), term.F(s.def), term.F(s.hp), term.F(s.boost), term.F(s.taken))
+}
+
+// the four operations: each returns the term and applies the documented effect to the shadow, returning the
+// events the call emits (in emission order)
+func (g *shGen) opStats(u int) (term.T, []shEv) {
+	r := g.r
+	g.stats[u] = shStat{term.Pick(r, shStatPool), term.Pick(r, shStatPool), term.Pick(r, shStatPool), term.Pick(r, shBonusPool), term.Pick(r, shBonusPool)}
+	if r.Chance(1, 6) {
+		g.stats[u].atk = -g.stats[u].atk // statCalc clamps a negative stat at zero
+	}
+	return term.C("OStats", term.I(int64(u)), shStatTerm(g.stats[u])), nil
+}
+
+func (g *shGen) opAdd(k int64, src, tgt int) (term.T, []shEv) {
+	r := g.r
 	eff := func(x float64) float64 {
 		if x < 0 {
 			return 0
 		}
 		return x
 	}
-	maxOf := func(u int) float64 {
-		m := 0.0
-		for _, s := range shadow[u] {
-			if s.hp > m {
-				m = s.hp
+	nt := r.Intn(4) // 0..3 formula terms; sometimes all five
+	if r.Chance(1, 10) {
+		nt = 5
+	}
+	twin := g.listen && (r.Chance(1, 4) || (g.twins && r.Chance(4, 5))) // flat-only shields of one value: several shields break in one hit
+	if twin {
+		nt = 0
+	}
+	used := map[string]bool{}
+	f := []term.T{}
+	base := 0.0
+	terms := map[string]float64{}
+	for len(f) < nt {
+		kn := term.Pick(r, shKindsAll)
+		if used[kn] {
+			continue
+		}
+		used[kn] = true
+		co := term.Pick(r, shCoefPool)
+		f = append(f, term.Tup(term.C(kn), term.F(co)))
+		terms[kn] = co
+	}
+	for _, kn := range shKindsAll {
+		co, ok := terms[kn]
+		if !ok {
+			continue
+		}
+		switch kn {
+		case "FAtk":
+			base += co * eff(g.stats[src].atk)
+		case "FDef":
+			base += co * eff(g.stats[src].def)
+		case "FHp":
+			base += co * eff(g.stats[src].hp)
+		case "FTgtHp":
+			base += co * eff(g.stats[tgt].hp)
+		case "FTotalShield":
+			base += co * g.maxOf(src)
+		}
+	}
+	flat := term.Pick(r, shFlatPool)
+	if twin {
+		flat = 20
+	}
+	hp := (base + flat) * (1 + g.stats[src].boost) * (1 + g.stats[tgt].taken)
+	done := false
+	for i := range g.shadow[tgt] {
+		if g.shadow[tgt][i].k == k {
+			g.shadow[tgt][i].hp = hp
+			done = true
+		}
+	}
+	if !done {
+		g.shadow[tgt] = append(g.shadow[tgt], shShadow{k, hp})
+	}
+	return term.C("OAdd", term.I(k), term.I(int64(src)), term.I(int64(tgt)), term.L(f...), term.F(flat)),
+		[]shEv{{"added", k, src, tgt, 0}}
+}
+
+func (g *shGen) opRemove(k int64, tgt int) (term.T, []shEv) {
+	keep := []shShadow{}
+	had := false
+	for _, s := range g.shadow[tgt] {
+		if s.k != k {
+			keep = append(keep, s)
+		} else {
+			had = true
+		}
+	}
+	g.shadow[tgt] = keep
+	var evs []shEv
+	if had {
+		evs = []shEv{{"removed", k, tgt, tgt, 0}}
+	}
+	return term.C("ORemove", term.I(k), term.I(int64(tgt))), evs
+}
+
+// damage aimed at the shields present on tgt (or from the pool of special values)
+func (g *shGen) aimed(tgt int) float64 {
+	r := g.r
+	if len(g.shadow[tgt]) > 0 && r.Chance(3, 5) {
+		h := term.Pick(r, g.shadow[tgt]).hp
+		switch r.Intn(8) {
+		case 0, 1:
+			return h // exactly the shield's strength
+		case 2:
+			return math.Nextafter(h, math.Inf(-1))
+		case 3:
+			return math.Nextafter(h, math.Inf(1))
+		case 4:
+			return h / 2
+		case 5, 6:
+			return g.maxOf(tgt) // exactly the strongest: every shield of the unit breaks
+		default:
+			return g.maxOf(tgt) + term.Pick(r, []float64{0, 1, 10, 0.1})
+		}
+	}
+	return term.Pick(r, []float64{0, math.Copysign(0, -1), -1, -50.5, 1, 10, 25, 50, 100, 1e4, 5e-324, 0.1})
+}
+
+func (g *shGen) opAbsorb(tgt int, d float64) (term.T, []shEv) {
+	var evs []shEv
+	if len(g.shadow[tgt]) > 0 && d > 0 {
+		keep := []shShadow{}
+		mid, mx := int64(-1), 0.0
+		for _, s := range g.shadow[tgt] {
+			s.hp = shDim(s.hp, d)
+			if s.hp > mx {
+				mx, mid = s.hp, s.k
+			}
+			if s.hp != 0 {
+				keep = append(keep, s)
+			} else {
+				evs = append(evs, shEv{"removed", s.k, tgt, tgt, 0})
 			}
 		}
-		return m
+		g.shadow[tgt] = keep
+		evs = append(evs, shEv{"change", mid, tgt, tgt, 0})
 	}
-	for u := 0; u < nu; u++ {
-		if r.Chance(4, 5) {
-			stats[u] = shStat{term.Pick(r, statPool), term.Pick(r, statPool), term.Pick(r, statPool), term.Pick(r, bonusPool), term.Pick(r, bonusPool)}
-			ops = append(ops, term.C("OStats", term.I(int64(u)), statTerm(stats[u])))
+	return term.C("OAbsorb", term.I(int64(tgt)), term.F(d)), evs
+}
+
+// perform: the call's atomic part was applied to the shadow by the op* function; now its emissions, each
+// followed by the script generated for it (the operations of which are again performed)
+func (g *shGen) perform(o term.T, evs []shEv, depth int) term.T {
+	for i := range evs {
+		for _, l := range evs[i+1:] {
+			if l.kind == "removed" {
+				evs[i].later++
+			}
+		}
+	}
+	for _, e := range evs {
+		// the listener of e pops its script BEFORE the listeners of the nested calls pop theirs
+		at := len(g.qs[e.kind])
+		g.qs[e.kind] = append(g.qs[e.kind], nil)
+		script := []term.T{}
+		if g.listen {
+			n := g.scriptLen(depth)
+			if e.later > 0 && n == 0 && depth < g.maxDepth && g.r.Chance(1, 2) {
+				n = 1 // the outer call still holds a list of removals to announce: react more often here
+			}
+			for i := 0; i < n && g.budget > 0; i++ {
+				g.budget--
+				script = append(script, g.reaction(e, depth+1))
+			}
+		}
+		g.qs[e.kind][at] = term.L(script...)
+	}
+	return o
+}
+
+// mostly short scripts; none below the depth bound
+func (g *shGen) scriptLen(depth int) int {
+	if depth >= g.maxDepth || g.budget <= 0 {
+		return 0
+	}
+	c := g.r.Intn(100)
+	switch {
+	case c < 40+10*depth:
+		return 0
+	case c < 72+5*depth:
+		return 1
+	case c < 92:
+		return 2
+	default:
+		return 3
+	}
+}
+
+// the unit carrying the most shields
+func (g *shGen) busiest() int {
+	b := 0
+	for u := range g.shadow {
+		if len(g.shadow[u]) > len(g.shadow[b]) {
+			b = u
+		}
+	}
+	return b
+}
+
+func (g *shGen) otherUnit(u int) int { return (u + 1 + g.r.Intn(g.nu-1)) % g.nu }
+func (g *shGen) otherKey(k int64) int64 {
+	if k < 0 {
+		return int64(g.r.Intn(g.nk))
+	}
+	return (k + 1 + int64(g.r.Intn(g.nk-1))) % int64(g.nk)
+}
+func (g *shGen) presentKey(tgt int, not int64) int64 {
+	c := []int64{}
+	for _, s := range g.shadow[tgt] {
+		if s.k != not {
+			c = append(c, s.k)
+		}
+	}
+	if len(c) == 0 {
+		return int64(g.r.Intn(g.nk))
+	}
+	return term.Pick(g.r, c)
+}
+
+// one operation of a listener script, aimed at what the outer call is working on: the same unit and key
+// (re-add what is being reported removed, remove what was just added or what is about to be reported, hit the
+// unit again so that the same event fires again), sometimes another unit or the stats getter
+func (g *shGen) reaction(e shEv, depth int) term.T {
+	r := g.r
+	var o term.T
+	var evs []shEv
+	c := r.Intn(100)
+	if e.later > 0 && r.Chance(1, 2) {
+		c = 50 // several removals inside a call that is itself still announcing several removals
+	}
+	switch e.kind {
+	case "removed":
+		switch {
+		case c < 25: // re-add the key that is being reported removed
+			o, evs = g.opAdd(e.k, r.Intn(g.nu), e.tgt)
+		case c < 35:
+			o, evs = g.opAdd(g.otherKey(e.k), r.Intn(g.nu), e.tgt)
+		case c < 50: // hit the same unit again: more removals, the same event again
+			o, evs = g.opAbsorb(e.tgt, g.aimed(e.tgt))
+		case c < 65: // break every shield of the unit that carries the most: several removals inside a removal
+			u := g.busiest()
+			o, evs = g.opAbsorb(u, g.maxOf(u)+term.Pick(r, []float64{0, 0, 1}))
+		case c < 78: // remove a shield that is still there (what a later event of the outer call names)
+			o, evs = g.opRemove(g.presentKey(e.tgt, e.k), e.tgt)
+		case c < 83: // remove the key just reported: absent, nothing happens
+			o, evs = g.opRemove(e.k, e.tgt)
+		case c < 90:
+			u := g.otherUnit(e.tgt)
+			if r.Bool() {
+				o, evs = g.opAdd(int64(r.Intn(g.nk)), e.tgt, u)
+			} else {
+				o, evs = g.opAbsorb(u, g.aimed(u))
+			}
+		default:
+			o, evs = g.opStats(r.Intn(g.nu))
+		}
+	case "added":
+		switch {
+		case c < 25: // remove what was just added
+			o, evs = g.opRemove(e.k, e.tgt)
+		case c < 45: // add under the same key again: the same event again
+			src := e.src
+			if r.Chance(1, 3) {
+				src = e.tgt // the total-shield term then reads the shield just added
+			}
+			o, evs = g.opAdd(e.k, src, e.tgt)
+		case c < 65:
+			o, evs = g.opAbsorb(e.tgt, g.aimed(e.tgt))
+		case c < 75:
+			o, evs = g.opAdd(g.otherKey(e.k), e.src, e.tgt)
+		case c < 85:
+			if r.Bool() {
+				o, evs = g.opStats(e.src)
+			} else {
+				o, evs = g.opStats(e.tgt)
+			}
+		case c < 93:
+			u := g.otherUnit(e.tgt)
+			o, evs = g.opAdd(e.k, e.tgt, u)
+		default:
+			o, evs = g.opRemove(g.presentKey(e.tgt, e.k), e.tgt)
+		}
+	default: // "change"
+		switch {
+		case c < 25 && e.k >= 0: // remove the shield the event names as the strongest
+			o, evs = g.opRemove(e.k, e.tgt)
+		case c < 50: // hit again: the same event again
+			o, evs = g.opAbsorb(e.tgt, g.aimed(e.tgt))
+		case c < 58: // break every shield of the unit that carries the most
+			u := g.busiest()
+			o, evs = g.opAbsorb(u, g.maxOf(u)+term.Pick(r, []float64{0, 0, 1}))
+		case c < 70:
+			o, evs = g.opAdd(int64(r.Intn(g.nk)), r.Intn(g.nu), e.tgt)
+		case c < 80:
+			o, evs = g.opRemove(g.presentKey(e.tgt, -1), e.tgt)
+		case c < 90:
+			u := g.otherUnit(e.tgt)
+			o, evs = g.opAbsorb(u, g.aimed(u))
+		default:
+			o, evs = g.opStats(e.tgt)
+		}
+	}
+	return g.perform(o, evs, depth)
+}
+
+func genShield(r *term.Rng, idx int) term.T {
+	g := &shGen{r: r, nu: 3, nk: 4, qs: map[string][]term.T{}, maxDepth: 3}
+	g.stats = make([]shStat, g.nu)
+	g.shadow = make([][]shShadow, g.nu)
+	// a fifth of the histories are flat (no listener does anything), as before listeners existed
+	g.listen = !r.Chance(1, 5)
+	g.twins = g.listen && r.Chance(1, 4)
+	ops := []term.T{}
+	for u := 0; u < g.nu; u++ {
+		if r.Chance(4, 5) && !g.twins { // twins: all stats zero, every flat-only shield has its flat value as strength
+			g.stats[u] = shStat{term.Pick(r, shStatPool), term.Pick(r, shStatPool), term.Pick(r, shStatPool), term.Pick(r, shBonusPool), term.Pick(r, shBonusPool)}
+			ops = append(ops, term.C("OStats", term.I(int64(u)), shStatTerm(g.stats[u])))
 		}
 	}
 	nops := r.Range(5, 40)
+	if g.listen {
+		nops = r.Range(4, 22)
+		g.budget = r.Range(4, 36)
+	}
 	for len(ops) < nops {
+		var o term.T
+		var evs []shEv
+		addTo := 8 // of 20: the share of AddShield; larger with listeners, so that units carry several shields
+		if g.listen {
+			addTo = 10
+		}
+		if g.twins {
+			addTo = 14 // few top-level hits: the twins pile up on several units
+		}
 		switch c := r.Intn(20); {
 		case c < 1:
-			u := r.Intn(nu)
-			stats[u] = shStat{term.Pick(r, statPool), term.Pick(r, statPool), term.Pick(r, statPool), term.Pick(r, bonusPool), term.Pick(r, bonusPool)}
-			if r.Chance(1, 6) {
-				stats[u].atk = -stats[u].atk // statCalc clamps a negative stat at zero
-			}
-			ops = append(ops, term.C("OStats", term.I(int64(u)), statTerm(stats[u])))
-		case c < 8:
-			k, src, tgt := int64(r.Intn(nk)), r.Intn(nu), r.Intn(nu)
-			nt := r.Intn(4) // 0..3 formula terms; sometimes all five
-			if r.Chance(1, 10) {
-				nt = 5
-			}
-			used := map[string]bool{}
-			f := []term.T{}
-			base := 0.0
-			terms := map[string]float64{}
-			for len(f) < nt {
-				kn := term.Pick(r, kindsAll)
-				if used[kn] {
-					continue
-				}
-				used[kn] = true
-				co := term.Pick(r, coefPool)
-				f = append(f, term.Tup(term.C(kn), term.F(co)))
-				terms[kn] = co
-			}
-			for _, kn := range kindsAll {
-				co, ok := terms[kn]
-				if !ok {
-					continue
-				}
-				switch kn {
-				case "FAtk":
-					base += co * eff(stats[src].atk)
-				case "FDef":
-					base += co * eff(stats[src].def)
-				case "FHp":
-					base += co * eff(stats[src].hp)
-				case "FTgtHp":
-					base += co * eff(stats[tgt].hp)
-				case "FTotalShield":
-					base += co * maxOf(src)
-				}
-			}
-			flat := term.Pick(r, flatPool)
-			hp := (base + flat) * (1 + stats[src].boost) * (1 + stats[tgt].taken)
-			done := false
-			for i := range shadow[tgt] {
-				if shadow[tgt][i].k == k {
-					shadow[tgt][i].hp = hp
-					done = true
-				}
-			}
-			if !done {
-				shadow[tgt] = append(shadow[tgt], shShadow{k, hp})
-			}
-			ops = append(ops, term.C("OAdd", term.I(k), term.I(int64(src)), term.I(int64(tgt)), term.L(f...), term.F(flat)))
-		case c < 10:
-			k, tgt := int64(r.Intn(nk)), r.Intn(nu)
-			keep := shadow[tgt][:0]
-			for _, s := range shadow[tgt] {
-				if s.k != k {
-					keep = append(keep, s)
-				}
-			}
-			shadow[tgt] = keep
-			ops = append(ops, term.C("ORemove", term.I(k), term.I(int64(tgt))))
+			o, evs = g.opStats(r.Intn(g.nu))
+		case c < addTo:
+			o, evs = g.opAdd(int64(r.Intn(g.nk)), r.Intn(g.nu), r.Intn(g.nu))
+		case c < addTo+2:
+			o, evs = g.opRemove(int64(r.Intn(g.nk)), r.Intn(g.nu))
 		default:
-			tgt := r.Intn(nu)
-			if len(shadow[tgt]) == 0 && r.Chance(2, 3) { // prefer shielded units
-				for u := 0; u < nu; u++ {
-					if len(shadow[u]) > 0 {
+			tgt := r.Intn(g.nu)
+			if len(g.shadow[tgt]) == 0 && r.Chance(2, 3) { // prefer shielded units
+				for u := 0; u < g.nu; u++ {
+					if len(g.shadow[u]) > 0 {
 						tgt = u
 					}
 				}
 			}
-			var d float64
-			if len(shadow[tgt]) > 0 && r.Chance(3, 5) {
-				h := term.Pick(r, shadow[tgt]).hp
-				switch r.Intn(6) {
-				case 0, 1:
-					d = h // exactly the shield's strength
-				case 2:
-					d = math.Nextafter(h, math.Inf(-1))
-				case 3:
-					d = math.Nextafter(h, math.Inf(1))
-				case 4:
-					d = h / 2
-				default:
-					d = maxOf(tgt) + term.Pick(r, []float64{0, 1, 10, 0.1})
-				}
-			} else {
-				d = term.Pick(r, []float64{0, math.Copysign(0, -1), -1, -50.5, 1, 10, 25, 50, 100, 1e4, 5e-324, 0.1})
-			}
-			keep := shadow[tgt][:0]
-			if d > 0 {
-				for _, s := range shadow[tgt] {
-					if s.hp = shDim(s.hp, d); s.hp != 0 {
-						keep = append(keep, s)
-					}
-				}
-				shadow[tgt] = keep
-			}
-			ops = append(ops, term.C("OAbsorb", term.I(int64(tgt)), term.F(d)))
+			o, evs = g.opAbsorb(tgt, g.aimed(tgt))
 		}
+		ops = append(ops, g.perform(o, evs, 0))
 	}
-	return term.Tup(term.Nat(nu), term.Nat(nk), term.L(ops...))
+	return term.Tup(term.Nat(g.nu), term.Nat(g.nk),
+		term.C("mkQ", term.L(g.qs["added"]...), term.L(g.qs["removed"]...), term.L(g.qs["change"]...)),
+		term.L(ops...))
 }
 
 func kindsShield(in term.T) map[string]int {
 	m := map[string]int{}
-	for _, o := range term.List(term.TupleItems(in)[2]) {
+	it := term.TupleItems(in)
+	count := func(o term.T, pre string) {
 		n, a := term.Ctor(o)
-		m[n]++
+		m[pre+n]++
 		if n == "OAdd" {
-			m[fmt.Sprintf("add_terms_%d", len(term.List(a[3])))]++
+			m[fmt.Sprintf("%sadd_terms_%d", pre, len(term.List(a[3])))]++
 			if term.Float(a[4]) != 0 {
-				m["add_with_flat"]++
+				m[pre+"add_with_flat"]++
 			}
 		}
 		if n == "OAbsorb" && !(term.Float(a[1]) > 0) {
-			m["absorb_nonpositive"]++
+			m[pre+"absorb_nonpositive"]++
 		}
+	}
+	for _, o := range term.List(it[3]) {
+		count(o, "")
+	}
+	_, qs := term.Ctor(it[2])
+	nested := 0
+	for i, slot := range []string{"on_added", "on_removed", "on_change"} {
+		for _, sc := range term.List(qs[i]) {
+			ops := term.List(sc)
+			m[fmt.Sprintf("%s_script_len_%d", slot, len(ops))]++
+			for _, o := range ops {
+				count(o, "nested_")
+				nested++
+			}
+		}
+	}
+	if nested > 0 {
+		m["histories_with_reentrant_listeners"]++
+	} else {
+		m["histories_flat"]++
 	}
 	return m
 }
